@@ -37,6 +37,8 @@ type c20FreeCase struct {
 	Callers  int    `json:"callers"` // goroutines per side sharing the update list
 	Craft    string `json:"craft"`   // "", "c" or "s": inject a record under that side's next generation
 	Suite    string `json:"suite"`
+	// TicketLost: the first transmission of the server's NewSessionTicket is lost, so the session starts with that flight outstanding
+	TicketLost bool `json:"ticketLost"`
 }
 
 type c20FreeResult struct {
@@ -103,7 +105,36 @@ func runC20Free(cc *c20FreeCase, keep bool) c20FreeResult { //nolint:cyclop,goco
 
 		return res
 	}
-	ce, se := r.handshakeLossless(5 * time.Second)
+	var ce, se error
+	if cc.TicketLost {
+		// the datagram that carries the server's NewSessionTicket is lost: the session starts with a reliable
+		// post-handshake flight outstanding on the server, which only its retransmission timer completes
+		r.net.mu.Lock()
+		r.net.auto = func(d *labDgram) labAction {
+			if d.from == "s" {
+				for _, e := range r.rec.snapshotEv("rec.seal") {
+					if e["side"] == "s" && e["epoch"] == 3 && e["ctype"] == 22 {
+						return labAction{hold: true}
+					}
+				}
+			}
+
+			return labAction{deliver: 1}
+		}
+		r.net.mu.Unlock()
+		ctx, cancel := context.WithTimeout(context.Background(), 5*time.Second)
+		defer cancel()
+		r.c.startHandshake(ctx)
+		r.s.startHandshake(ctx)
+		<-r.c.hsDone
+		<-r.s.hsDone
+		ce, se = r.c.hsErr, r.s.hsErr
+		for dl := time.Now().Add(2 * time.Second); r.rec.count("ph.start") == 0 && time.Now().Before(dl); {
+			time.Sleep(50 * time.Microsecond)
+		}
+	} else {
+		ce, se = r.handshakeLossless(5 * time.Second)
+	}
 	if ce != nil || se != nil {
 		r.closeAll()
 		res.Lab = fmt.Sprintf("handshake failed: %v / %v", ce, se)
@@ -114,7 +145,7 @@ func runC20Free(cc *c20FreeCase, keep bool) c20FreeResult { //nolint:cyclop,goco
 	defer d.close()
 	d.startDrain(r.c)
 	d.startDrain(r.s)
-	if !c20Settle(d, 3*time.Second) {
+	if !cc.TicketLost && !c20Settle(d, 3*time.Second) {
 		res.Lab = "session not idle after the handshake"
 
 		return res
@@ -128,6 +159,9 @@ func runC20Free(cc *c20FreeCase, keep bool) c20FreeResult { //nolint:cyclop,goco
 	faulted := map[string]map[int]string{"c2s": {}, "s2c": {}}
 	faultsOn := true
 	r.net.mu.Lock()
+	if cc.TicketLost {
+		r.net.held = map[string][]*labDgram{} // lost for good
+	}
 	r.net.auto = func(dg *labDgram) labAction {
 		fmu.Lock()
 		defer fmu.Unlock()
